@@ -72,7 +72,7 @@ def selfSafe (now : Int) (id : Nat) : ActX → Bool
   | _ => false
 
 def tieIter (acts : Nat → Nat → List ActX) (now : Int) (dchk : Bool) (st : TieSt) (k : Nat) (it : TieIn) : TieSt :=
-  if dchk && it.anyTie then { st with bad := true } else
+  if dchk && (it.anyTie || it.s.length ≥ 2) then { st with bad := true } else
   if st.isOpen && it.d != st.d then { st with bad := true } else
   let st : TieSt :=
     if st.isOpen then { st with g := st.g ++ it.s.filter (fun j => !st.g.contains j) }
